@@ -188,6 +188,15 @@ func (v *PacketDslVisitorImpl) VisitPacketDefinition(ctx *gen.PacketDefinitionCo
 				lengthField = fld
 			}
 
+			if _, dup := fieldMap[fld.Name]; dup {
+				v.BinModel.AddSyntaxError(&model.SyntaxError{
+					Line:            fctx.GetStart().GetLine(),
+					Column:          fctx.GetStart().GetTokenSource().GetCharPositionInLine(),
+					Msg:             "Duplicate field definition for " + fld.Name + " in packet " + name,
+					OffendingSymbol: nil,
+				})
+				continue
+			}
 			fields = append(fields, fld)
 			fieldMap[fld.Name] = fld
 			positions[fld] = [2]int{fctx.GetStart().GetLine(), fctx.GetStart().GetTokenSource().GetCharPositionInLine()}
@@ -423,6 +432,8 @@ func (v *PacketDslVisitorImpl) VisitInerObjectField(ctx *gen.InerObjectFieldCont
 	decl := ctx.InerObjectDeclaration()
 	name := decl.IDENTIFIER().GetText()
 	var subFields []*model.Field
+	// fields of the nested object by name (duplicates are reported; match fields are linked to their key below)
+	subFieldMap := make(map[string]*model.Field)
 	// Iterate all sub-field definitions inside the nested object
 	for _, fctx := range decl.AllFieldDefinition() {
 		fld := v.VisitFieldDefinition(fctx)
@@ -430,12 +441,16 @@ func (v *PacketDslVisitorImpl) VisitInerObjectField(ctx *gen.InerObjectFieldCont
 			continue
 		}
 		f := fld.(*model.Field)
-		subFields = append(subFields, f)
-	}
-	// link match fields to their key field inside the nested object
-	subFieldMap := make(map[string]*model.Field)
-	for _, f := range subFields {
+		if _, dup := subFieldMap[f.Name]; dup {
+			v.BinModel.AddSyntaxError(&model.SyntaxError{
+				Line:   fctx.GetStart().GetLine(),
+				Column: fctx.GetStart().GetTokenSource().GetCharPositionInLine(),
+				Msg:    "Duplicate field definition for " + f.Name + " in " + name,
+			})
+			continue
+		}
 		subFieldMap[f.Name] = f
+		subFields = append(subFields, f)
 	}
 	for _, f := range subFields {
 		if mf, ok := f.Attr.(*model.MatchFieldAttribute); ok {
